@@ -548,13 +548,14 @@ theorem served_entries_are_fresh (w : World R) (hist : List Op) :
 theorem recompiled_template_starts_clean (w : World R) (hist : List Op) (t : Nat) (tm : Tmpl) (K : Key R)
     (ht : w.tmpls[t]? = some tm) (hh : w.be.honoursStarttime = true) :
     visible w.be (runHist w (hist ++ [.compile t])) t K = none := by
+  have happ : ∀ (ops : List Op) (st0 : St R),
+      runFrom w st0 (ops ++ [.compile t]) = (step w (runFrom w st0 ops) (.compile t)).2 := by
+    intro ops
+    induction ops with
+    | nil => intro st0; rfl
+    | cons op ops ih => intro st0; simpa [runFrom] using ih _
+  have hrun : runHist w (hist ++ [.compile t]) = (step w (runHist w hist) (.compile t)).2 := happ hist _
   have hsync := runHist_sync w hist
-  have hrun : runHist w (hist ++ [.compile t]) = (step w (runHist w hist) (.compile t)).2 := by
-    unfold runHist
-    generalize St.init w = st0
-    induction hist generalizing st0 with
-    | nil => rfl
-    | cons op ops ih => simpa [runFrom] using ih hsync _
   rw [hrun]
   simp only [step, ht]
   unfold visible
